@@ -47,6 +47,7 @@ type Run struct {
 	memo                       map[string]StrV
 	cs                         *concState
 	race                       *raceState
+	pools                      map[Ptr][]Value
 	fsCalls                    []Value
 	fsKinds                    []Value
 	gorPanic                   any
@@ -601,6 +602,22 @@ func (e *Engine) registerIntrinsics() {
 		bs := a[0].(StrV).bytesTerms()
 		c := a[1].(IntV).term(8)
 		for i, b := range bs {
+			if b.Op == "bvlit" && c.Op == "bvlit" {
+				if b.Val == c.Val {
+					return IntV{C: uint64(i)}
+				}
+				continue
+			}
+			if r.branch(mkEq(b, c)) {
+				return IntV{C: uint64(i)}
+			}
+		}
+		return IntV{C: ^uint64(0)}
+	}
+	in["internal/bytealg.IndexByte"] = func(r *Run, fr *frame, a []Value) Value {
+		c := a[1].(IntV).term(8)
+		for i, e := range a[0].(SliceV).Data {
+			b := e.(IntV).term(8)
 			if b.Op == "bvlit" && c.Op == "bvlit" {
 				if b.Val == c.Val {
 					return IntV{C: uint64(i)}
